@@ -1504,7 +1504,7 @@ func (g *gen) siteTypeSwitch() string {
 func (g *gen) site() string {
 	for try := 0; try < 4; try++ {
 		var s string
-		switch k := g.Pick(20, "site"); {
+		switch k := g.Pick(24, "site"); {
 		case k < 3:
 			s = g.siteFieldRead()
 		case k < 5:
@@ -1519,8 +1519,10 @@ func (g *gen) site() string {
 			s = g.siteIface()
 		case k < 18:
 			s = g.siteAssertAny()
-		default:
+		case k < 20:
 			s = g.siteTypeSwitch()
+		default:
+			s = g.siteTypeSwitchMixed()
 		}
 		if s != "" {
 			return s
@@ -1597,11 +1599,11 @@ func (g *gen) finish(body string, extraDecls []string, meta map[string]string) g
 	decls = append(decls, extraDecls...)
 	decls = append(decls, fmt.Sprintf("func %s() {\n%s}", entry, progen.Indent(body)))
 	p := gobatch.Program{Decls: decls, Entry: entry, Tags: g.TagList(), Meta: meta}
-	if g.useFmt {
-		p.Imports = append(p.Imports, "fmt")
-	}
-	if g.useSort {
-		p.Imports = append(p.Imports, "sort")
+	all := strings.Join(decls, "\n")
+	for _, imp := range []string{"fmt", "sort", "time", "errors", "strings", "bytes"} {
+		if strings.Contains(all, imp+".") {
+			p.Imports = append(p.Imports, imp)
+		}
 	}
 	switch {
 	case g.deep && g.shadow:
